@@ -18,8 +18,8 @@ def k01aRoutes : List Route :=
 def k01aReq : Req := ⟨B "GET", B "/a/1/c", [B "x", B "y"]⟩
 
 theorem K01a_witness :
-    serve anySat (build false k01aScript) k01aReq ≠ refMatch anySat false k01aRoutes k01aReq [B "a", B "1", B "c"]
-    ∧ dNames k01aRoutes k01aReq [B "a", B "1", B "c"] = true := by
+    serve anySat (build false k01aScript) k01aReq ≠ refMatch anySat false k01aRoutes k01aReq ⟨[B "a", B "1", B "c"], false⟩
+    ∧ dNames k01aRoutes k01aReq ⟨[B "a", B "1", B "c"], false⟩ = true := by
   decide
 
 end Rivaas.C01
